@@ -20,13 +20,26 @@ def as_literal(p: Union[str, int, float, bool, None]) -> ast.Constant:
     Returns:
         ast.Constant: The ast constant node that represents the value.
     """
-    # An instance of a subclass of a plain type (a numpy scalar, an `IntEnum` member) is sent
-    # as the plain value: its own `repr` is not something a literal can be read back from.
-    for plain in (int, float, complex, str, bytes):
-        if isinstance(p, plain) and type(p) is not plain and not isinstance(p, bool):
-            p = plain(p)
-            break
-    return ast.Constant(value=p, kind=None)
+    return ast.Constant(value=_plain_value(p), kind=None)
+
+
+def _plain_value(p: Any) -> Any:
+    """An instance of a subclass of a plain type (a numpy scalar, an `IntEnum` member, a
+    `(str, Enum)` member) is sent as the plain value: its own `repr` is not something a literal
+    can be read back from. The plain type's own conversion is used - a subclass may well
+    override `__str__` (`str(Color.RED)` is `'Color.RED'`, the value is `'red'`)."""
+    if isinstance(p, bool):
+        return p
+    for plain, convert in (
+        (int, int.__int__),
+        (float, float.__float__),
+        (complex, complex.__complex__),
+        (str, str.__str__),
+        (bytes, lambda b: bytes.__getitem__(b, slice(None))),
+    ):
+        if isinstance(p, plain) and type(p) is not plain:
+            return convert(p)
+    return p
 
 
 def as_ast(p_var: Any) -> ast.expr:
@@ -41,6 +54,19 @@ def as_ast(p_var: Any) -> ast.expr:
         the result will be an AST node of type ast.List.
 
     """
+
+    def plain(v: Any) -> Any:
+        "Values of subclasses of the plain types, at any depth, as plain values"
+        if type(v) is list:
+            return [plain(i) for i in v]
+        if type(v) is tuple:
+            return tuple(plain(i) for i in v)
+        if type(v) is dict:
+            return {plain(k): plain(i) for k, i in v.items()}
+        return _plain_value(v)
+
+    p_var = plain(p_var)
+
     # If we are dealing with a string, we have to special case this.
     if isinstance(p_var, str):
         p_var = repr(p_var)
@@ -358,12 +384,23 @@ class _rewrite_captured_vars(ast.NodeTransformer):
         """
         # Translate the value via our usual process
         value = self.visit(node.value)
+        # A captured object that can also be called (it has `__call__`, or is a function that
+        # carries attributes) is left as a name by `visit_Name`: its attributes are values.
+        if (
+            isinstance(node.value, ast.Name)
+            and not self.is_arg(node.value.id)
+            and node.value.id in self._lookup_dict
+            and not isinstance(value, ast.Constant)
+        ):
+            base = self._lookup_dict[node.value.id]
+            if hasattr(base, node.attr) and not callable(getattr(base, node.attr)):
+                value = ast.Constant(value=base)
 
         # Now, if it comes back a constant, can we do a lookup to resolve it?
         if isinstance(value, ast.Constant) and hasattr(value.value, node.attr):
             new_value = getattr(value.value, node.attr)
             # When 3.10 is not supported, replace with EnumType
-            if isinstance(value.value, Enum.__class__):
+            if isinstance(value.value, Enum.__class__) and isinstance(new_value, Enum):
                 # Sometimes we need to prepend a namespace. We look
                 # for secret info here, and then prepend if necessary.
                 # But no one else knows about this, so  we need to mark this
@@ -381,7 +418,7 @@ class _rewrite_captured_vars(ast.NodeTransformer):
                     ns_node = copy.copy(node)
 
                 return _mark_ignore_name().visit(ns_node)
-            return ast.Constant(value=new_value)
+            return ast.Constant(value=_plain_value(new_value))
 
         # If we fail, then just move on.
         return node
@@ -440,6 +477,15 @@ class _rewrite_captured_vars(ast.NodeTransformer):
                 ):
                     rewritten_call.func = ast.Attribute(
                         value=obj, attr=old_func.attr, ctx=ast.Load()
+                    )
+                elif isinstance(obj, ast.Constant) and not isinstance(
+                    obj.value, (type, ModuleType)
+                ):
+                    # A method of a captured object (a dict, a list, an instance): neither
+                    # the object nor its method can be sent.
+                    raise ValueError(
+                        f"Unable to capture {ast.unparse(old_func.value)} (a "
+                        f"{type(obj.value).__name__}) for the call {ast.unparse(old_func)}(...)"
                     )
 
         return rewritten_call
@@ -1200,7 +1246,7 @@ def scan_for_metadata(a: ast.AST, callback: Callable[[ast.arg], None]):
     metadata_finder().visit(a)
 
 
-g_legal_capture_types = (str, int, float, bool, complex, str, bytes, ModuleType)
+g_legal_capture_types = (str, int, float, bool, complex, bytes)
 
 
 def check_ast(a: ast.AST):
